@@ -1616,7 +1616,7 @@ def aten_cat(tensors: Sequence[TTensor], dim: int = 0) -> TTensor:
     assert filtered_tensors, "aten::cat received all None or empty tensors"
     if len(filtered_tensors) == 1:
         return op.Identity(filtered_tensors[0])
-    return op.Concat(*tensors, axis=dim)
+    return op.Concat(*filtered_tensors, axis=dim)
 
 
 def aten_ccol_indices(self: TensorType) -> TensorType:
